@@ -604,3 +604,119 @@ func ifaceDesc(v any) string {
 	}
 	return fmt.Sprintf("%T", v)
 }
+
+// RunHasCustomCases: whether a custom function exists for a receiver depends on the table of the receiver's own type
+// and on nothing else — decided by evaluating hasCustomFunc on an abstract registry. In particular a name that is a
+// built-in of ANOTHER type is an ordinary name here (C20: "unless a built-in of that name exists" for that type).
+func (m *Model) RunHasCustomCases(s *Sink, rule string) {
+	hc := m.PkgFunc("evaluator", "hasCustomFunc")
+	ft := m.namedType("config", "Func")
+	if hc == nil || ft == nil || len(hc.Params) != 3 {
+		s.Undecided(rule, "evaluator.hasCustomFunc", "-", "hasCustomFunc(registry, type, name) / config.Func not found")
+		return
+	}
+	tables := map[string]string{"Str": "STRING", "Arr": "ARRAY", "Int": "INTEGER", "Float": "FLOAT", "Bool": "BOOLEAN"}
+	st := ft.Underlying().(*types.Struct)
+	fieldOf := map[string]int{}
+	for i := 0; i < st.NumFields(); i++ {
+		fieldOf[canonFieldName(ft, i, st.Field(i).Name())] = i
+	}
+	// a built-in name of some other type, per kind
+	builtinOf := map[string]map[string]bool{}
+	for _, b := range m.Facts().Builtins {
+		if builtinOf[b.Kind] == nil {
+			builtinOf[b.Kind] = map[string]bool{}
+		}
+		builtinOf[b.Kind][b.Name] = true
+	}
+	foreign := func(kind string) string {
+		var names []string
+		for k, set := range builtinOf {
+			if k == kind {
+				continue
+			}
+			for n := range set {
+				if !builtinOf[kind][n] {
+					names = append(names, n)
+				}
+			}
+		}
+		sort.Strings(names)
+		if len(names) == 0 {
+			return ""
+		}
+		return names[0]
+	}
+	mkMap := func(names ...string) *iMap {
+		mp := &iMap{vals: map[string]any{}, kval: map[string]constant.Value{}}
+		for _, n := range names {
+			k := constant.MakeString(n)
+			mp.keys = append(mp.keys, k.ExactString())
+			mp.vals[k.ExactString()] = iFn{}
+			mp.kval[k.ExactString()] = k
+		}
+		return mp
+	}
+	var fields []string
+	for f := range tables {
+		fields = append(fields, f)
+	}
+	sort.Strings(fields)
+	bad, undecided, cases := "", "", 0
+	for _, f := range fields {
+		kind := tables[f]
+		fi, ok := fieldOf[f]
+		if !ok {
+			undecided = "config.Func has no table " + f
+			break
+		}
+		fb := foreign(kind)
+		reg := &iStruct{typ: ft, fields: map[int]any{}}
+		for _, g := range fields {
+			if g == f {
+				reg.fields[fieldOf[g]] = mkMap("own_"+f, fb)
+			} else {
+				reg.fields[fieldOf[g]] = mkMap("other_" + g)
+			}
+		}
+		_ = fi
+		type q struct {
+			name string
+			want bool
+			what string
+		}
+		qs := []q{{"own_" + f, true, "a name registered for this type"}, {"nobody", false, "a name registered nowhere"}}
+		for _, g := range fields {
+			if g != f {
+				qs = append(qs, q{"other_" + g, false, "a name registered only for another type (" + tables[g] + ")"})
+			}
+		}
+		if fb != "" {
+			qs = append(qs, q{fb, true, "a name registered for this type that is a built-in of another type (`" + fb + "`)"})
+		}
+		for _, c := range qs {
+			cases++
+			ip := &Interp{m: m, useGlobals: true}
+			res, known := ip.Run(hc, []any{reg, constant.MakeString(kind), constant.MakeString(c.name)})
+			rc, isC := res.(constant.Value)
+			if !known || !isC || rc.Kind() != constant.Bool || ip.stuck != "" {
+				if undecided == "" {
+					undecided = fmt.Sprintf("%s receiver, %s: %s", kind, c.what, ip.stuck)
+				}
+				continue
+			}
+			if constant.BoolVal(rc) != c.want && bad == "" {
+				bad = fmt.Sprintf("for a %s receiver and %s it answers %v", kind, c.what, constant.BoolVal(rc))
+			}
+		}
+	}
+	key := fnKey(hc) + "|a custom function exists exactly when its name is in the table of the receiver's type"
+	switch {
+	case bad != "":
+		s.Violation(rule, key, m.Pos(hc.Pos()), "%s: %s — a registered function is reported as missing (or a missing one as present) depending on something other than the receiver type's own table", fnKey(hc), bad)
+	case undecided != "":
+		s.Undecided(rule, key, m.Pos(hc.Pos()), "hasCustomFunc could not be evaluated on an abstract registry (%s)", undecided)
+	default:
+		s.OK(rule, key, m.Pos(hc.Pos()), "case evaluation on an abstract registry: %d (receiver type, name) cases, including names that are built-ins of other types", cases)
+	}
+}
